@@ -46,6 +46,10 @@ def _ev(e, p):
             return UNK
         op = e.ops[0]
         try:
+            if isinstance(op, ast.LtE):
+                return a <= b
+            if isinstance(op, ast.GtE):
+                return a >= b
             if isinstance(op, ast.Eq):
                 return a == b
             if isinstance(op, ast.NotEq):
@@ -65,6 +69,14 @@ def _ev(e, p):
         except TypeError:
             return UNK
         return UNK
+    if isinstance(e, ast.BinOp) and isinstance(e.op, (ast.Add, ast.Sub, ast.Mult)):
+        a, b = _ev(e.left, p), _ev(e.right, p)
+        if a is UNK or b is UNK or not all(isinstance(x, (int, float)) and not isinstance(x, bool) for x in (a, b)):
+            return UNK
+        return a + b if isinstance(e.op, ast.Add) else (a - b if isinstance(e.op, ast.Sub) else a * b)
+    if isinstance(e, ast.UnaryOp) and isinstance(e.op, ast.USub):
+        v = _ev(e.operand, p)
+        return UNK if v is UNK or not isinstance(v, (int, float)) else -v
     if isinstance(e, ast.IfExp):
         t = _ev(e.test, p)
         if t is UNK:
@@ -115,9 +127,14 @@ def _exec(stmts, p):
                 for x in t.elts:
                     p.env[ast.unparse(x)] = UNK
     elif isinstance(st, ast.AugAssign):
-        p.env[ast.unparse(st.target)] = UNK
+        cur, v = p.env.get(ast.unparse(st.target), UNK), _ev(st.value, p)
+        if cur is not UNK and v is not UNK and isinstance(st.op, (ast.Add, ast.Sub)) and all(isinstance(x, (int, float)) for x in (cur, v)):
+            p.env[ast.unparse(st.target)] = cur + v if isinstance(st.op, ast.Add) else cur - v
+        else:
+            p.env[ast.unparse(st.target)] = UNK
     elif isinstance(st, ast.Return):
         p.done = 'return'
+        p.events.append((st.lineno, 'return', {'value': st.value}, dict(p.env)))
         yield p
         return
     elif isinstance(st, ast.Raise):
